@@ -42,6 +42,7 @@ type GenCfg struct {
 	Visited                                                                                    bool   // visited()/visited_count() in expressions
 	MoreBuiltins                                                                               int    // added to the percentages with which built-ins (and round_places among them) are drawn
 	ArgExprPct                                                                                 int    // chance that a command argument is an {expression} (default 35)
+	ReregInArgs                                                                                bool   // C10: an argument of a command may be prr("cmd", v): the host replaces that command's handler while the statement is evaluated
 	HostPanics                                                                                 bool   // model-free C12 worlds: <<call pboom(k)>> - a host function that panics with a value of its own
 	StopArgs                                                                                   bool   // model-free C12 worlds: <<stop now>>, <<stop {1 + 1}>>
 	ExprOnlyLines                                                                              bool   // model-free worlds: some lines are nothing but {an expression}
@@ -722,6 +723,12 @@ func (g *gen) command() *Stmt {
 		argPct := 35
 		if g.cfg.ArgExprPct > 0 {
 			argPct = g.cfg.ArgExprPct
+		}
+		if g.cfg.ReregInArgs && g.tp.Chance(10, "argreregisters") {
+			// an argument whose evaluation replaces the handler of the very command it belongs to
+			lit := map[byte]*Expr{'n': numLit(float64(g.tp.Int(0, 9, "rereglit"))), 'b': {K: eBool, B: true}, 's': {K: eStr, S: "abc"}}[ty]
+			s.Args = append(s.Args, CmdArg{E: &Expr{K: eCall, S: "prr", A: []*Expr{{K: eStr, S: h.Name}, lit}}})
+			continue
 		}
 		if g.tp.Chance(argPct, "argexpr") {
 			s.Args = append(s.Args, CmdArg{E: g.expr(ty, 1)})
